@@ -144,3 +144,79 @@ func Harness_C09_Twin(n int) {
 	a := c09Encode(fmtHeader, m)
 	verif.Assert(len(a) < 8, "twin: some map encodes to 8 bytes or more")
 }
+
+type c09Boom struct{}
+
+func (c09Boom) Error() string { return "boom" }
+
+// c09Record writes a small record with a nested map and an array.
+func c09Record(s string) func(Writer) error {
+	return func(w Writer) error {
+		return w.WriteMap(func(kw func(string) Writer) error {
+			kw("id").WriteInt32(42)
+			kw("name").WriteString(s)
+			if err := kw("m").WriteMap(func(kw func(string) Writer) error {
+				kw("k").WriteString("v")
+				return nil
+			}); err != nil {
+				return err
+			}
+			return kw("a").WriteArray(func(iw func() Writer) error {
+				iw().WriteString("x")
+				iw().WriteInt64(7)
+				return nil
+			})
+		})
+	}
+}
+
+// Harness_C09_History: the bytes a value encodes to do not depend on what the
+// library was used for earlier in the process: before the second encoding a
+// solver-chosen sequence of other serializations runs, including ones that
+// fail half-way through a map, an array or a nested value (with sync.Pool
+// handing back whatever was put into it). format 0..3 (JSON, pretty JSON,
+// ROR2 header, ROR2 path).
+func Harness_C09_History(format, n int) {
+	s := verif.String(n)
+	verif.PoolReuse(true)
+	first, err := c01Encode(format, c09Record(s))
+	verif.Assert(err == nil, "encoding failed")
+	for step := 0; step < 2; step++ {
+		other := verif.Choose(4)
+		switch verif.Choose(5) {
+		case 0: // nothing
+		case 1: // a successful, different serialization
+			_, _ = c01Encode(other, c09Record("other"))
+		case 2: // fails after two entries of a map
+			_, _ = c01Encode(other, func(w Writer) error {
+				return w.WriteMap(func(kw func(string) Writer) error {
+					kw("z").WriteString("left-over")
+					kw("y").WriteInt32(1)
+					return c09Boom{}
+				})
+			})
+		case 3: // fails inside a nested map, after an outer entry
+			_, _ = c01Encode(other, func(w Writer) error {
+				return w.WriteMap(func(kw func(string) Writer) error {
+					kw("outer").WriteString("stale")
+					return kw("inner").WriteMap(func(kw func(string) Writer) error {
+						kw("deep").WriteString("staler")
+						return c09Boom{}
+					})
+				})
+			})
+		case 4: // fails in the middle of an array
+			_, _ = c01Encode(other, func(w Writer) error {
+				return w.WriteArray(func(iw func() Writer) error {
+					iw().WriteString("item")
+					return c09Boom{}
+				})
+			})
+		}
+	}
+	second, err := c01Encode(format, c09Record(s))
+	verif.PoolReuse(false)
+	verif.Assert(err == nil, "encoding failed after other uses of the library")
+	verif.Assert(first == second, "the same value encoded differently after earlier use of the library: "+second)
+	verif.Cover("same")
+}
